@@ -173,10 +173,24 @@ pub fn gen_arp(r: &mut Rng, size: u32) -> ArpPacket {
         2 => (r.usize_range(0, 16), r.usize_range(0, 16)),
         _ => (r.edgy(0, 255) as usize, r.edgy(0, 255) as usize),
     };
+    // the common type constants often (also together with unusual address
+    // sizes), arbitrary values otherwise
+    let hw_type = match r.below(3) {
+        0 => r.u16(),
+        _ => *r.pick(&[1u16, 1, 1, 6, 15, 16, 18, 19, 20, 32]),
+    };
+    let proto_type = match r.below(3) {
+        0 => r.u16(),
+        _ => *r.pick(&[0x0800u16, 0x0800, 0x86dd, 0x0806, 0x8035]),
+    };
+    let operation = match r.below(3) {
+        0 => r.u16(),
+        _ => r.range(0, 10) as u16,
+    };
     ArpPacket::new(
-        ArpHardwareId(r.u16()),
-        EtherType(r.u16()),
-        ArpOperation(r.u16()),
+        ArpHardwareId(hw_type),
+        EtherType(proto_type),
+        ArpOperation(operation),
         &r.bytes(hw),
         &r.bytes(proto),
         &r.bytes(hw),
